@@ -18,6 +18,7 @@ type cdImg struct {
 
 func mkCDImage(root string, im cdImg, seed byte) {
 	p := filepath.Join(root, im.name)
+	must(os.MkdirAll(filepath.Dir(p), 0o755))
 	f, err := os.OpenFile(p, os.O_CREATE|os.O_TRUNC|os.O_WRONLY, 0o644)
 	must(err)
 	must(f.Truncate(im.size))
